@@ -58,14 +58,28 @@ def lower_unit(unit, workdir):
         if hasattr(unit, 'lower'):
             return unit.lower(docs, prof)
         protos, bodies = [], []
+        unlowered = {}
         for fn in unit.FUNCS:
             ds = cxx2c.find_functions(docs, fn)
             if len(ds) != 1:
                 raise Unsupported('function %s: %d definitions found in %s' % (fn, len(ds), unit.SRC))
-            head, lines = prof.func(ds[0], is_method=prof.IS_METHOD)
+            try:
+                head, lines = prof.func(ds[0], is_method=prof.IS_METHOD)
+            except Unsupported as e:
+                # one function left the lowerable subset: its own harness (and every harness that
+                # inlines it) is undecided; the others go on.  The prototype is still needed.
+                unlowered[fn] = 'EXTRACTION BREAK (%s::%s): %s' % (unit.NAME, fn, e)
+                head = prof.head_only(ds[0], is_method=prof.IS_METHOD)
+                lines = None
             protos.append(head + ';')
-            bodies.append([head] + lines)
-        return dict(protos=protos, bodies=bodies, profile=prof)
+            if lines is not None:
+                bodies.append([head] + lines)
+        prof.fn_unlowered = unlowered
+        # file-level constants referenced by the lowered text (e.g. static constexpr size_t k = 8)
+        if prof.needed_globals:
+            gdocs = cxx2c.ast_dump(unit.SRC, sorted(prof.needed_globals), workdir, getattr(unit, 'CLANG_ARGS', ()))
+            prof.resolve_globals(gdocs)
+        return dict(protos=protos, bodies=bodies, profile=prof, unlowered=unlowered)
     except Unsupported as e:
         raise Break('EXTRACTION BREAK (%s): %s' % (unit.NAME, e))
 
@@ -89,13 +103,18 @@ def splice(unit, low, harnesses, out_c, mode='proof'):
     lines = ['#include "%s"' % unit.SHIM]
     if hasattr(prof, 'file_prelude'):
         lines += prof.file_prelude()
+    lines += prof.global_defs
     lines += subst(unit.GHOSTS).split('\n')
-    lines += low['protos'] + ['']
+    lines += low['protos'] + ['', '/*@@BODIES@@*/']
     labels = {}   # label -> props
     # binding checks: loops and locals named by the sidecar must exist (per function; a break
     # sends the harnesses of that function to the bounded route, never to a verdict)
     breaks = {}
+    for fn, msg in getattr(prof, 'fn_unlowered', {}).items():
+        breaks[fn] = msg
     for fn, spec in unit.CONTRACTS.items():
+        if fn in breaks:
+            continue
         if fn not in prof.fn_loops:
             raise Break('CONTRACT BINDING BREAK (%s): function %s is not lowered' % (unit.NAME, fn))
         nl = prof.fn_loops[fn]
@@ -110,6 +129,22 @@ def splice(unit, low, harnesses, out_c, mode='proof'):
             if loc not in prof.fn_locals[fn]:
                 breaks[fn] = 'CONTRACT BINDING BREAK (%s): local %s of %s no longer exists' % (unit.NAME, loc, fn)
     post = []
+    lowered_heads = set(b[0] for b in low['bodies'])
+    for p in low['protos']:
+        h0 = p[:-1]
+        if h0 in lowered_heads:
+            continue
+        fn0 = re.search(r'(\w+)\(', h0).group(1)
+        fn0 = fn0[len(prof.CLS) + 1:] if prof.CLS and fn0.startswith(prof.CLS + '_') else fn0
+        spec0 = unit.CONTRACTS.get(fn0, {})
+        lines.append(h0)
+        for clause in spec0.get('contract', []):
+            (label, ckind, text, props) = clause[:4]
+            if (clause[4] if len(clause) > 4 else {}).get('enforce_only'):
+                continue
+            lines.append('__CPROVER_%s(%s)' % (ckind, subst(text)))
+        lines.append(';  /* body not lowered: %s */' % breaks_msg(prof, fn0))
+        lines.append('')
     for body in low['bodies']:
         head = body[0]
         for ln in body:
@@ -170,6 +205,10 @@ def splice(unit, low, harnesses, out_c, mode='proof'):
         if m:
             label_by_line[i] = m.group(1)
     return label_by_line, labels, breaks
+
+
+def breaks_msg(prof, fn):
+    return getattr(prof, 'fn_unlowered', {}).get(fn, '').replace('*/', '* /')
 
 
 def harness_text(unit, prof, h):
@@ -247,14 +286,21 @@ def run_harness(unit, h, src_c, workdir, label_by_line, mode='proof', solver=Non
     entry = 'h_' + h['name']
     defs = ['-DVERIF', '-DENFORCING_' + h['fn']] + ['-D' + f for f in h.get('flags', [])]
     if mode == 'bounded':
-        defs += ['-D' + d for d in h.get('bounded_defs', ['NMAX=2'])]
+        defs += ['-DBL_BOUNDED'] + ['-D' + d for d in h.get('bounded_defs', ['NMAX=2'])]
     t0 = time.time()
     rc, out, _ = sh(['goto-cc', '-I', os.path.join(ROOT, 'shim')] + defs + ['--function', entry, src_c, '-o', base + '.a.gb'],
                     log=base + '.gotocc.log', timeout=300)
     if rc != 0:
         raise Break('TOOL BREAK: goto-cc failed for %s/%s (see %s)\n%s' % (unit.NAME, name, base + '.gotocc.log', out[-1500:]))
     gi = ['goto-instrument', '--no-malloc-may-fail', '--dfcc', entry, '--enforce-contract', cn + h['fn']]
-    for r in (h.get('replace', []) if mode == 'proof' else h.get('bounded_replace', [])):
+    repl = list(h.get('replace', []) if mode == 'proof' else h.get('bounded_replace', []))
+    if mode == 'proof':
+        # library models that exist only as contracts in the modular route (loops inside the real shim body)
+        text = open(src_c).read()
+        for r in getattr(unit, 'ALWAYS_REPLACE', []):
+            if r not in repl and re.search(r'\b%s\(' % r, text.split('/*@@BODIES@@*/')[-1]):
+                repl.append(r)
+    for r in repl:
         gi += ['--replace-call-with-contract', r if r.startswith('bl_') else cn + r]
     if mode == 'proof':
         gi += ['--apply-loop-contracts']
